@@ -11,53 +11,194 @@ set_option linter.unusedSectionVars false
 namespace Cfr
 variable {α : Type} [Field α] [LinearOrder α] [IsStrictOrderedRing α]
 
+/-! ## helper lemmas -/
+
+theorem mem_nonneg_le_sum (v : List α) (hv : ∀ p ∈ v, 0 ≤ p) : 0 ≤ v.sum ∧ ∀ p ∈ v, p ≤ v.sum := by
+  induction v with
+  | nil => exact ⟨by simp, by simp⟩
+  | cons x xs ih =>
+    have hx : 0 ≤ x := hv x (by simp)
+    obtain ⟨h0, hle⟩ := ih (fun p hp => hv p (by simp [hp]))
+    refine ⟨by rw [List.sum_cons]; linarith, ?_⟩
+    intro p hp
+    rw [List.sum_cons]
+    rcases List.mem_cons.mp hp with rfl | hp
+    · linarith
+    · have := hle p hp; linarith
+
+theorem filter_sum_le (P : α → Bool) (v : List α) (hv : ∀ p ∈ v, 0 ≤ p) :
+    (v.filter P).sum ≤ v.sum := by
+  induction v with
+  | nil => simp
+  | cons x xs ih =>
+    have hx : 0 ≤ x := hv x (by simp)
+    have ih' := ih (fun p hp => hv p (by simp [hp]))
+    rw [List.filter_cons]
+    split_ifs
+    · rw [List.sum_cons, List.sum_cons]; linarith
+    · rw [List.sum_cons]; linarith
+
+theorem filter_sum_pos (h : α) (v : List α) (hv : IsDist v) (hex : ∃ p ∈ v, h < p) :
+    0 < (v.filter (fun p => h < p)).sum := by
+  obtain ⟨p, hp, hlt⟩ := hex
+  have hnn : ∀ q ∈ v.filter (fun p => h < p), 0 ≤ q :=
+    fun q hq => hv.1 q (List.mem_of_mem_filter hq)
+  have hmem : p ∈ v.filter (fun p => h < p) := by
+    rw [List.mem_filter]; exact ⟨hp, by simpa using hlt⟩
+  rcases lt_or_ge h 0 with hneg | hpos
+  · have hall : v.filter (fun p => h < p) = v := by
+      rw [List.filter_eq_self]
+      intro q hq
+      have := hv.1 q hq
+      simpa using lt_of_lt_of_le hneg this
+    rw [hall, hv.2]; exact one_pos
+  · have := (mem_nonneg_le_sum _ hnn).2 p hmem
+    linarith
+
+theorem map_trunc_sum (h T : α) (v : List α) :
+    (v.map (fun p => if h < p then p / T else 0)).sum = (v.filter (fun p => h < p)).sum / T := by
+  induction v with
+  | nil => simp
+  | cons x xs ih =>
+    rw [List.map_cons, List.sum_cons, ih, List.filter_cons]
+    by_cases hx : h < x
+    · simp only [hx, if_true, decide_true, List.sum_cons]; ring
+    · simp only [hx, if_false, decide_false]
+      simp
+
+theorem filter_sum_eq_of_low (h : α) (v : List α) (hv : ∀ p ∈ v, 0 ≤ p)
+    (hlow : ∀ p ∈ v, 0 < p → h < p) : (v.filter (fun p => h < p)).sum = v.sum := by
+  induction v with
+  | nil => simp
+  | cons x xs ih =>
+    have ih' := ih (fun p hp => hv p (by simp [hp])) (fun p hp => hlow p (by simp [hp]))
+    rw [List.filter_cons]
+    by_cases hx : h < x
+    · simp only [hx, decide_true, if_true, List.sum_cons, ih']
+    · have h0 : x = 0 := by
+        have h1 : 0 ≤ x := hv x (by simp)
+        have h2 : ¬ 0 < x := fun hpos => hx (hlow x (by simp) hpos)
+        exact le_antisymm (not_lt.mp h2) h1
+      rw [if_neg (by simpa using hx), List.sum_cons, ih', h0, zero_add]
+
+/-! ## the statements -/
+
 /-- where some action's probability exceeds `h`: exactly those actions survive, rescaled
 proportionally (divided by the total of the survivors); every other action gets `0` -/
 theorem truncateOne_spec (h : α) (v : List α) (hv : IsDist v) (hex : ∃ p ∈ v, h < p) :
     truncateOne h v = v.map (fun p => if h < p then p / (v.filter (fun p => h < p)).sum else 0) := by
-  sorry
+  have hpos := filter_sum_pos h v hv hex
+  unfold truncateOne
+  simp only [lsum_eq_sum]
+  rw [if_pos hpos]
 
 /-- an infoset in which no action exceeds `h` is left as it is -/
 theorem truncateOne_none_exceeds (h : α) (v : List α) (hv : IsDist v) (hno : ∀ p ∈ v, ¬ h < p) :
     truncateOne h v = v := by
-  sorry
+  have _ := hv
+  have hnil : v.filter (fun p => h < p) = [] := by
+    rw [List.filter_eq_nil_iff]
+    intro p hp
+    simpa using hno p hp
+  unfold truncateOne
+  simp only [lsum_eq_sum, hnil, List.sum_nil, lt_irrefl, if_false]
 
 /-- the result is a probability vector, whatever the threshold -/
 theorem truncateOne_valid (h : α) (v : List α) (hv : IsDist v) : IsDist (truncateOne h v) := by
-  sorry
+  by_cases hex : ∃ p ∈ v, h < p
+  · have hpos := filter_sum_pos h v hv hex
+    rw [truncateOne_spec h v hv hex]
+    refine ⟨?_, ?_⟩
+    · intro q hq
+      obtain ⟨p, hp, rfl⟩ := List.mem_map.mp hq
+      split_ifs
+      · exact div_nonneg (hv.1 p hp) hpos.le
+      · exact le_refl 0
+    · rw [map_trunc_sum]
+      exact div_self hpos.ne'
+  · have hno : ∀ p ∈ v, ¬ h < p := fun p hp hlt => hex ⟨p, hp, hlt⟩
+    rw [truncateOne_none_exceeds h v hv hno]
+    exact hv
 
 /-- the length (number of actions) never changes -/
 theorem truncateOne_length (h : α) (v : List α) : (truncateOne h v).length = v.length := by
-  sorry
+  unfold truncateOne
+  dsimp only
+  split_ifs
+  · exact List.length_map _
+  · rfl
 
 /-- a threshold below every positive probability changes nothing -/
 theorem truncateOne_below_support (h : α) (v : List α) (hv : IsDist v)
     (hlow : ∀ p ∈ v, 0 < p → h < p) : truncateOne h v = v := by
-  sorry
+  by_cases hex : ∃ p ∈ v, h < p
+  · rw [truncateOne_spec h v hv hex, filter_sum_eq_of_low h v hv.1 hlow, hv.2]
+    conv_rhs => rw [← List.map_id v]
+    apply List.map_congr_left
+    intro p hp
+    by_cases hx : h < p
+    · simp only [hx, if_true, div_one, id]
+    · have h1 : 0 ≤ p := hv.1 p hp
+      have h2 : ¬ 0 < p := fun hpos => hx (hlow p hp hpos)
+      simp only [hx, if_false, id]
+      exact le_antisymm h1 (not_lt.mp h2)
+  · exact truncateOne_none_exceeds h v hv (fun p hp hlt => hex ⟨p, hp, hlt⟩)
 
 /-- truncating twice equals truncating once -/
 theorem truncateOne_idempotent (h : α) (v : List α) (hv : IsDist v) :
     truncateOne h (truncateOne h v) = truncateOne h v := by
-  sorry
+  by_cases hex : ∃ p ∈ v, h < p
+  · apply truncateOne_below_support h _ (truncateOne_valid h v hv)
+    have hpos := filter_sum_pos h v hv hex
+    have hle : (v.filter (fun p => h < p)).sum ≤ 1 := by
+      rw [← hv.2]; exact filter_sum_le _ v hv.1
+    rw [truncateOne_spec h v hv hex]
+    intro q hq hq0
+    obtain ⟨p, hp, rfl⟩ := List.mem_map.mp hq
+    by_cases hx : h < p
+    · simp only [hx, if_true]
+      have hp0 : 0 ≤ p := hv.1 p hp
+      have : p ≤ p / (v.filter (fun p => h < p)).sum := by
+        rw [le_div_iff₀ hpos]
+        nlinarith
+      exact lt_of_lt_of_le hx this
+    · simp only [hx, if_false] at hq0
+      exact absurd hq0 (lt_irrefl 0)
+  · have hno : ∀ p ∈ v, ¬ h < p := fun p hp hlt => hex ⟨p, hp, hlt⟩
+    rw [truncateOne_none_exceeds h v hv hno, truncateOne_none_exceeds h v hv hno]
 
 /-- whole profiles: always a valid strategy -/
 theorem truncate_valid (h : α) (σ : Strat α) (hσ : IsStrat σ) : IsStrat (truncate h σ) := by
-  sorry
+  intro w hw
+  obtain ⟨v, hv, rfl⟩ := List.mem_map.mp hw
+  exact truncateOne_valid h v (hσ v hv)
 
 /-- whole profiles: idempotent -/
 theorem truncate_idempotent (h : α) (σ : Strat α) (hσ : IsStrat σ) :
     truncate h (truncate h σ) = truncate h σ := by
-  sorry
+  unfold truncate
+  rw [List.map_map]
+  apply List.map_congr_left
+  intro v hv
+  exact truncateOne_idempotent h v (hσ v hv)
 
 /-- whole profiles: a threshold below every positive probability changes nothing -/
 theorem truncate_below_support (h : α) (σ : Strat α) (hσ : IsStrat σ)
     (hlow : ∀ v ∈ σ, ∀ p ∈ v, 0 < p → h < p) : truncate h σ = σ := by
-  sorry
+  unfold truncate
+  conv_rhs => rw [← List.map_id σ]
+  apply List.map_congr_left
+  intro v hv
+  exact truncateOne_below_support h v (hσ v hv) (hlow v hv)
 
 /-- the shape of the profile (number of infosets, actions per infoset) never changes -/
 theorem truncate_shape (h : α) (σ : Strat α) :
     (truncate h σ).map List.length = σ.map List.length := by
-  sorry
+  unfold truncate
+  rw [List.map_map]
+  apply List.map_congr_left
+  intro v _
+  exact truncateOne_length h v
 
 /-! ## non-vacuity (over `ℚ`) -/
 
